@@ -189,3 +189,70 @@ def model_randrange(n, stream_bytes, pos=0):
 def sk_repro(cname, d, hashname="sha256"):
     return ("import hashlib, ecdsa\nfrom ecdsa import util\nC = ecdsa.curves.%s\nsk = ecdsa.SigningKey.from_secret_exponent(%d, C, hashlib.%s)\nvk = sk.verifying_key\n"
             % (cname, d, hashname))
+
+
+def near_limit(ctx, rng, cnames, which):
+    """Valid-input calls made with few free stack frames (gen.depth_probe); `which` selects the entry points a property owns."""
+    import hashlib as _h
+    from ecdsa.ecdh import ECDH
+    from vf import gen as _gen
+    for cname in cnames:
+        c = lib.BY_NAME[cname]
+        dom = lib.dom_of(c)
+        n = dom.n
+        d = rng.randrange(1, n)
+        sk = ecdsa.SigningKey.from_secret_exponent(d, c, _h.sha256)
+        vk = sk.verifying_key
+        Q = ecdsa_ref.pubkey(dom, d)
+        msg = b"near the recursion limit"
+        dg = _h.sha256(msg).digest()
+        sig = sk.sign_deterministic(msg)
+        raw = bytes(vk.to_string())
+        if "verify" in which:
+            vk2 = ecdsa.VerifyingKey.from_string(raw, c, _h.sha256)
+            vk3 = ecdsa.VerifyingKey.from_string(raw, c, _h.sha256)
+            vk3.precompute()
+            bad = bytes(sig[:-1]) + bytes([sig[-1] ^ 1])
+
+            def vbad(v=vk2):
+                try:
+                    return v.verify(bad, msg)
+                except ecdsa.BadSignatureError:
+                    return "BadSignatureError"
+            _gen.depth_probe(ctx, "verify|" + cname, lambda: vk2.verify(sig, msg), lambda r: r is True)
+            _gen.depth_probe(ctx, "verify_precomputed|" + cname, lambda: vk3.verify(sig, msg), lambda r: r is True)
+            _gen.depth_probe(ctx, "verify_wrong_signature|" + cname, vbad, lambda r: r == "BadSignatureError")
+        if "load_public" in which:
+            for enc in ("compressed", "hybrid", "uncompressed"):
+                blob = bytes(vk.to_string(enc))
+                _gen.depth_probe(ctx, "from_string_%s|%s" % (enc, cname), lambda blob=blob: bytes(ecdsa.VerifyingKey.from_string(blob, c).to_string()), lambda r: r == raw)
+            derc = bytes(vk.to_der("compressed"))
+            _gen.depth_probe(ctx, "from_der_compressed|" + cname, lambda: bytes(ecdsa.VerifyingKey.from_der(derc).to_string()), lambda r: r == raw)
+        if "load_private" in which:
+            for fmt in ("ssleay", "pkcs8"):
+                blob = bytes(sk.to_der(format=fmt))
+                pem = bytes(sk.to_pem(format=fmt))
+                _gen.depth_probe(ctx, "sk_from_der_%s|%s" % (fmt, cname), lambda blob=blob: int(ecdsa.SigningKey.from_der(blob).privkey.secret_multiplier), lambda r: r == d)
+                _gen.depth_probe(ctx, "sk_from_pem_%s|%s" % (fmt, cname), lambda pem=pem: int(ecdsa.SigningKey.from_pem(pem).privkey.secret_multiplier), lambda r: r == d, frees=range(4, 640, 13))
+        if "sign" in which:
+            k = rng.randrange(1, n)
+            e = ecdsa_ref.digest_to_e(dom, dg, True)
+            want = ecdsa_ref.sign(dom, d, k, e)
+            if isinstance(want, tuple):
+                _gen.depth_probe(ctx, "sign_digest_k|" + cname, lambda: sk.sign_digest(dg, sigencode=lambda r, s, o: (r, s), k=k, allow_truncate=True), lambda r: tuple(r) == tuple(want))
+        if "sign_det" in which:
+            _gen.depth_probe(ctx, "sign_deterministic|" + cname, lambda: bytes(sk.sign_deterministic(msg)), lambda r: r == bytes(sig))
+            _gen.depth_probe(ctx, "sign_digest_deterministic|" + cname, lambda: bytes(sk.sign_digest_deterministic(dg, hashfunc=_h.sha256, allow_truncate=True)), lambda r: r == bytes(sig))
+        if "recover" in which and dom.h == 1:
+            _gen.depth_probe(ctx, "recover|" + cname, lambda: [bytes(v.to_string()) for v in ecdsa.VerifyingKey.from_public_key_recovery(sig, msg, c, _h.sha256)], lambda r: raw in r, frees=range(4, 640, 11))
+        if "ecdh" in which:
+            d2 = rng.randrange(1, n)
+            sk2 = ecdsa.SigningKey.from_secret_exponent(d2, c)
+            want_x = dom.curve.mul(d * d2 % n, dom.G)[0]
+            rawB = bytes(sk2.verifying_key.to_string("compressed"))
+
+            def ex():
+                e_ = ECDH(c, sk)
+                e_.load_received_public_key_bytes(rawB)
+                return e_.generate_sharedsecret()
+            _gen.depth_probe(ctx, "ecdh|" + cname, ex, lambda r: r == want_x)
